@@ -416,6 +416,21 @@ func families(n int) []family {
 		}
 		fams = append(fams, f)
 	}
+	// same-size contents of the inputs that come AFTER a missing one (a loop over the inputs that ends at the first
+	// missing file instead of skipping it would drop them; sizes alone would not tell these states apart)
+	{
+		f := family{name: "inputs:content after a missing input"}
+		for _, pre := range [][]file{nil, {{Path: "f0", Content: "z"}}} {
+			for _, c2 := range []string{"x", "y"} {
+				for _, c3 := range []string{"p", "q"} {
+					s := base()
+					s.Inputs = append(append([]file{}, pre...), file{Path: "f1", Missing: true}, file{Path: "f2", Content: c2}, file{Path: "f3", Content: c3})
+					f.states = append(f.states, s)
+				}
+			}
+		}
+		fams = append(fams, f)
+	}
 	// order permutations (must be equal) combined with a one-element change (must differ)
 	{
 		f := family{name: "perm:inputs"}
